@@ -41,6 +41,9 @@ pub fn gen_main(args: &[String]) {
           wat += &format!("(func $f{} (export \"e{}\") (param $a i32) (param $b{} i64) (local $unused{} f32) {})\n", i, i, i, i, body); }
       wat += "(func $no_params_empty) (func $one_param_empty (param $only i32)))";
       if let Ok(b) = wat::parse_str(&wat) { inputs.push(("degenerate-bodies-with-named-parameters".to_string(), b)); } }
+    // bodies whose size sits on either side of the 128-byte boundary of the size LEB (with a code transform dumped into a custom section, every offset a build computes is in the bytes)
+    inputs.extend(crate::c11::boundary_bodies());
+    { let mut wat = String::from("(module (func (export \"big\") (result i32)\n"); for k in 0..5470 { wat += &format!(" i32.const {} drop\n", k % 50); } wat += " i32.const 1) (func (export \"s\") (result i32) i32.const 2))"; if let Ok(b) = wat::parse_str(&wat) { inputs.push(("body-of-about-16384-bytes".to_string(), b)); } }
     let tab = sigs::build_table(Profile::Full, false, 8);
     let gcfg = GenCfg { profile: Profile::Full, max_funcs: 12, max_depth: 3, seq_len: 6, names: true, customs: true, start: true, active_segments: true };
     let mut k = 0; while k < n { let (w, _) = gen::module(&mut r, &tab, &gcfg); if amod::validate(&w, feats).is_err() && !r.chance(1, 8) { continue; } inputs.push((format!("gen{}", k), w)); k += 1; }
